@@ -335,10 +335,18 @@ class WExec:
         if op == "ref.i31":
             x = self.i32(self.ev(e[1], st), op)
             return I31(z3.simplify(sext31(x)))
+        if op == "i31.get_u":
+            v = self.ev(e[1], st)
+            if isinstance(v, I31):
+                return Int(z3.simplify(v.t & BV(0x7FFFFFFF)))
+            if isinstance(v, Sym):
+                self.may_trap(st, z3.Not(self.w.fact("isi31!%s" % v.key)), "i31.get_u on a non-i31")
+                return Int(z3.BitVec(v.key + "#i31val", 32) & BV(0x7FFFFFFF))
+            raise Unsupported("i31.get_u of %r" % (v,))
         if op == "i31.get_s":
             v = self.ev(e[1], st)
             if isinstance(v, I31):
-                return Int(v.t)
+                return Int(z3.simplify(sext31(v.t)))
             if isinstance(v, Sym):
                 self.may_trap(st, z3.Not(self.w.fact("isi31!%s" % v.key)), "i31.get_s on a non-i31")
                 return Int(sext31(z3.BitVec(v.key + "#i31val", 32)))
@@ -609,14 +617,18 @@ class WExec:
 
     # ---------------------------------------------------------------- calls
     def call(self, target, args, st, callee_val, result_type=None):
-        if target == "__$unwrapI31":
-            v = args[0]
-            if isinstance(v, I31):
-                return Int(v.t)
-            if isinstance(v, Sym):
-                self.may_trap(st, z3.Not(self.w.fact("isi31!%s" % v.key)), "unwrapI31 of a non-i31")
-                return Int(sext31(z3.BitVec(v.key + "#i31val", 32)))
-            self.may_trap(st, z3.BoolVal(True), "unwrapI31 of %r" % (v,))
+        if target is not None and target.startswith("__$"):
+            # runtime helpers that are a single pure expression (e.g. $__$unwrapI31) are evaluated from their
+            # real body in the module, not from an assumed meaning
+            f = self.m.funcs.get("$" + target)
+            if f is not None and len(f["body"]) == 1 and not f["locals"] and isinstance(f["body"][0], list) \
+                    and f["body"][0][0] not in ("block", "loop", "if", "call", "return"):
+                saved = st.loc
+                st.loc = {n: a for (n, _), a in zip(f["params"], args)}
+                try:
+                    return self.ev(f["body"][0], st)
+                finally:
+                    st.loc = saved
         if target == "__Str$eq":
             # pure: equality of contents (the LIR/MIR side has the `==` operator here)
             a, b = args
@@ -641,8 +653,12 @@ class WExec:
         lt = self.w.ev_types.get(key)
         if rt != "i32" and lt == "int":
             # the reference side receives an int where WASM receives a reference (Vec<int> element): the runtime
-            # hands back the boxed int (boxing itself is checked where values are stored)
-            return I31(z3.BitVec(key, 32))
+            # hands back the boxed int.  Boxing is checked where values are stored (F5), so a value read back is one
+            # that fits in 31 bits.
+            x = z3.BitVec(key, 32)
+            st.pc.append(x == sext31(x))
+            st.model = None
+            return I31(x)
         if rt == "eq" and isinstance(lt, str) and lt not in ("int", "any", "i31"):
             return Sym(key, lt)
         return self.w.mk(key, "int" if rt == "i32" else ("any" if rt == "eq" else rt))
